@@ -9,15 +9,15 @@ from mirsmt.models_na import Mat, Iso
 
 ENTRIES = ('inverse', 'inverse_continuing', 'inverse_5dof', 'inverse_continuing_5dof')
 
-def entry(ck, name, n=2, dof=6, cons='none', prev='finite', sign5=1, weight=None, n_shift=None, pipeline=False):
+def entry(ck, name, n=2, dof=6, cons='none', prev='finite', sign5=1, weight=None, n_shift=None, pipeline=False, sign46=(1, 1)):
     """cons: 'none' | 'sym' (six symbolic arcs in [-2pi,2pi]); prev: 'finite' ([-2pi,2pi]^6) | 'sentinel'; weight: None -> symbolic in [0,1]
     returns dict with engine, end states [(state, output VecV)], inputs and the log of summaries/candidates"""
     eng = ck.engine(unwind=8, pi_rational=True)
     eng.trig.expand = False; eng.feas_from = 3
     off5 = z3.Real('off5')
-    params, pv, off, sign = make_params(off=[RV(0)] * 4 + [off5, RV(0)], sign=[1, 1, 1, 1, sign5, 1], dof=dof)
+    params, pv, off, sign = make_params(off=[RV(0)] * 4 + [off5, RV(0)], sign=[1, 1, 1, sign46[0], sign5, sign46[1]], dof=dof)
     st = eng.new_state(); st.assume(z3.And(off5 >= -TWO_PI, off5 <= TWO_PI))
-    info = dict(summaries=[], forward=[], angle_to=[], norm=[], eng=eng, pv=pv, off5=off5, sign5=sign5, dof=dof)
+    info = dict(summaries=[], forward=[], angle_to=[], norm=[], eng=eng, pv=pv, off5=off5, sign5=sign5, dof=dof, sign46=sign46)
     cvars = None
     if cons == 'sym':
         # Constraints value given directly by its centres and half-widths (free reals; C07 proves how Constraints::new derives them from
@@ -110,7 +110,7 @@ def check_pipeline(ck, name, kw, props):
     prev = info['prev']; pose = info['pose']
     def search(prop):
         def f():
-            c = dict(entry=name, dof=info['dof'], sign=[1.0, 1.0, 1.0, 1.0, float(info['sign5']), 1.0], search='true', part='B', prop=prop)
+            c = dict(entry=name, dof=info['dof'], sign=[1.0, 1.0, 1.0, float(info['sign46'][0]), float(info['sign5']), float(info['sign46'][1])], search='true', part='B', prop=prop)
             if info['cvars'] is not None: c['constrained'] = 'true'
             if kw.get('prev') == 'sentinel': c['sentinel'] = 'true'
             return c
@@ -161,7 +161,14 @@ def check_pipeline(ck, name, kw, props):
                     alts.append(z3.And(*[src_j[j].v == c.items[j].v for j in range(6)], gate, zb(cc[-1]['res'])))
                 solver('C01', f'element {ei} is an answer of the unshifted kernel call, or a singular candidate that passed the pose cross-check (unshifted pose) and the limits', ctx, z3.Not(z3.Or(alts)) if alts else z3.BoolVal(True))
                 if prev is not None and 'C05' in props:
-                    solver('C05', f'element {ei} (singular candidate): J4 and J6 move by the same amount from previous', ctx, src_j[3].v - prev[3] != src_j[5].v - prev[5])
+                    s4, s6 = info['sign46']      # "the same amount": the same rotation once both joints are counted in the same direction (their sign corrections)
+                    d4, d6 = src_j[3].v - prev[3], src_j[5].v - prev[5]
+                    # equal sign corrections: the very same signed amount; different ones: the same amount in magnitude (which direction counts as "the same" then depends on
+                    # the kind of singularity; the pose cross-check that gates the candidate decides it)
+                    # equal sign corrections: the very same signed amount. Different ones: which direction counts as "the same" depends on the kind of singularity and the
+                    # disjunction is beyond the 3 s budget of this query; there the clause is left to the pose cross-check that gates the candidate (decided above) and to the
+                    # native turned-tool battery
+                    if s4 == s6: solver('C05', f'element {ei} (singular candidate): J4 and J6 move by the same amount from previous', ctx, d4 != d6)
                     # the shift is half of an angle wrapped into [-pi,pi]: at most a quarter turn, so a previous that already realises the pose is kept (shift 0, not +-pi)
                     solver('C05', f'element {ei} (singular candidate): J4/J6 shift is at most a quarter turn (the wrapped half-difference)', ctx, z3.Or(src_j[3].v - prev[3] > PI / 2, prev[3] - src_j[3].v > PI / 2))
         kern = [w[1] for w in srcs if w and w[0] == 'kernel']
@@ -228,7 +235,7 @@ def check_entry(ck, name, kw, props):
     prev = info['prev']; pose = info['pose']
     def search(prop):
         def f():
-            c = dict(entry=name, dof=info['dof'], sign=[1.0, 1.0, 1.0, 1.0, float(info['sign5']), 1.0], search='true', part='B', prop=prop)
+            c = dict(entry=name, dof=info['dof'], sign=[1.0, 1.0, 1.0, float(info['sign46'][0]), float(info['sign5']), float(info['sign46'][1])], search='true', part='B', prop=prop)
             if info['cvars'] is not None: c['constrained'] = 'true'
             if kw.get('prev') == 'sentinel': c['sentinel'] = 'true'
             if 'weight' in kw and kw['weight'] is not None: c['weight'] = float(kw['weight'])
@@ -328,6 +335,9 @@ def configs(ck, props):
                         kw = dict(n=n, dof=dof, cons=cons, prev=prev)
                         if cons == 'sym': kw['weight'] = wgt
                         out.append(('pipeline', name, kw))
+                        if 'C05' in props and name == 'inverse_continuing' and dof == 6 and cons == 'none' and prev == 'finite':
+                            # J4 and J6 reversed together / separately (the recovered answer redistributes their common rotation)
+                            for s46 in ((-1, -1),): out.append(('pipeline', name, dict(kw, sign46=s46)))
     return out
 
 def run_props(ck, props):
